@@ -88,9 +88,11 @@ class Snap:
         self.nt = len(self.arrays)
         self.counts = Counter(x for lab in self.labels for x in lab)
         self.sizes = {}
+        self.inconsistent = {}
         for a, lab in zip(self.arrays, self.labels):
             for d, x in zip(a.shape, lab):
-                self.sizes[x] = d
+                if self.sizes.setdefault(x, d) != d:
+                    self.inconsistent[x] = sorted({self.sizes[x], d} | set(self.inconsistent.get(x, ())))
         self.inferred = tuple(sorted(x for x, c in self.counts.items() if c == 1))
         self.out = tuple(self.inferred if out is None else out)
         self.self_trace = any(len(set(lab)) != len(lab) for lab in self.labels)
@@ -129,7 +131,7 @@ class Snap:
                     [t.left_inds for t in ts], tn.exponent, out, gauges)
 
     def value(self):
-        """dense tensor over self.out; external gauges enter as a vector on their label"""
+        """(dense tensor over self.out, sum of |terms|); external gauges enter as a vector on their label"""
         if self._val is None:
             arrays, labels = list(self.arrays), list(self.labels)
             for ix, g in (self.gauges or {}).items():
@@ -138,6 +140,14 @@ class Snap:
                     labels.append((ix,))
             self._val = den(arrays, labels, self.out, self.exponent)
         return self._val
+
+    def scale(self):
+        """tolerance scale: the sum of |terms|, but at least 1% of the product of the tensor norms (a network whose
+        terms vanish structurally still picks up rounding of that size from inverse gauges)"""
+        pn = 10.0 ** self.exponent
+        for a in self.arrays:
+            pn *= float(np.linalg.norm(np.asarray(a, dtype=np.complex128).ravel()))
+        return max(self.value()[1], 1e-2 * pn)
 
     def mk(self, qtn):
         """fresh quimb network; tensor k additionally gets the unique tag U{k}"""
@@ -189,6 +199,27 @@ class Snap:
         nb = self.neighbours()
         return self.is_tree() and all(len(v) <= 2 for v in nb.values())
 
+    def shrinkable(self):
+        """some bond is larger than its generic rank: bond size > product of the other (effective) sizes of one of
+        its two tensors, iterated to the fixed point (exact for random data on trees)"""
+        eff = dict(self.sizes)
+        edges = self.edges()
+        changed = True
+        while changed:
+            changed = False
+            for (i, j), labs in edges.items():
+                d = int(np.prod([eff[x] for x in labs]))
+                for k in (i, j):
+                    others = int(np.prod([eff[x] for x in self.labels[k] if x not in labs]))
+                    if others < d:
+                        # shrink the (fused) bond: keep the product consistent by putting it on the first label
+                        eff[labs[0]] = others
+                        for x in labs[1:]:
+                            eff[x] = 1
+                        d = others
+                        changed = True
+        return any(eff[x] < self.sizes[x] for x in eff)
+
     def max_rank(self):
         return max([a.ndim for a in self.arrays] or [0])
 
@@ -227,14 +258,18 @@ def _iso_defect(a, labels, left):
 def check_step(before, after, dt, loose=False, same_tensors=True, same_outer=True):
     """the generic post-condition of one rewrite step: `after` (Snap) denotes the tensor `before` denotes over the same
     outer labels; tensors flagged with left_inds are isometries; (same_tensors) no pair of tensors has a larger bond"""
+    if after.inconsistent:
+        return f"labels with different sizes on different tensors: {after.inconsistent}"
     for x in before.out:
         if x not in after.counts:
             return f"outer label {x!r} (size {before.sizes[x]}) is gone"
+        if after.sizes[x] != before.sizes[x]:
+            return f"outer label {x!r} changed size from {before.sizes[x]} to {after.sizes[x]}"
     if same_outer and before.plain:
         extra = set(after.inferred) - set(before.out)
         if extra:
             return f"new dangling labels {sorted(extra)}"
-    ref, scale = before.value()
+    ref, scale = before.value()[0], before.scale()
     try:
         got, _ = Snap(after.arrays, after.labels, after.tags, after.flags, after.exponent, before.out,
                       after.gauges).value()
@@ -457,6 +492,7 @@ def _inplace_call(tn, meth, inplace, *args, **kw):
 class _Base:
     loose = False
     same_tensors = True
+    zero_ok = True      # may be applied to a network that is identically zero (no norm is divided by)
 
     @staticmethod
     def ok(sp):
@@ -476,7 +512,10 @@ class _CanonizeBetween(_Base):
     @staticmethod
     def draw(rng, sp):
         i, j, _ = _pick_edge(rng, sp)
-        return dict(i=i, j=j, absorb=_choice(rng, ["right", "left", "both"]), method=_choice(rng, [None, "qr", "svd"]),
+        absorb = _choice(rng, ["right", "left", "both"])
+        # a QR has no 'both' form: quimb rejects that combination
+        method = _choice(rng, [None, "svd"] if absorb == "both" else [None, "qr", "svd"])
+        return dict(i=i, j=j, absorb=absorb, method=method,
                     eq=_choice(rng, [False, False, True, 1.0]), tagform=int(rng.integers(0, 2)))
 
     @staticmethod
@@ -572,6 +611,7 @@ class _GaugeAllCanonize(_Base):
 @rewrite("gauge_all_simple", "G")
 class _GaugeAllSimple(_Base):
     loose = True
+    zero_ok = False
 
     @staticmethod
     def draw(rng, sp):
@@ -611,10 +651,13 @@ class _GaugeAllRandom(_Base):
 @rewrite("gauge_all_bp", "G")
 class _GaugeAllBP(_Base):
     loose = True
+    zero_ok = False
 
     @staticmethod
     def ok(sp):
-        return sp.plain and sp.gauges is None and sp.nt <= 5 and bool(sp.edges())
+        # double precision only: the gauge is built from inverse square roots of message spectra, whose numerically
+        # zero part (rank deficient bonds) is noise of relative size sqrt(eps)
+        return sp.plain and sp.gauges is None and sp.nt <= 5 and bool(sp.edges()) and sp.double
 
     @staticmethod
     def draw(rng, sp):
@@ -632,12 +675,20 @@ class _GaugeAllBP(_Base):
 @rewrite("gauge_local", "G")
 class _GaugeLocal(_Base):
     loose = True
+    zero_ok = False
 
     @staticmethod
     def draw(rng, sp):
         tags, which, idx = _tagsel(rng, sp)
-        return dict(tags=tags, which=which, max_distance=_choice(rng, [0, 1, 2]), method=_choice(rng, ["canonize", "simple", "random"]),
-                    max_iterations=_choice(rng, ["max_distance", 1, 2]), inplace=bool(rng.integers(0, 2)))
+        md = _choice(rng, [0, 1, 2])
+        # the local region: everything within graph distance md of the selected tensors
+        nb, region = sp.neighbours(), set(idx)
+        for _ in range(md):
+            region |= {j for i in region for j in nb[i]}
+        region_bonds = sum(1 for (i, j) in sp.edges() if i in region and j in region)
+        return dict(tags=tags, which=which, max_distance=md, method=_choice(rng, ["canonize", "simple", "random"]),
+                    max_iterations=_choice(rng, ["max_distance", 1, 2]), inplace=bool(rng.integers(0, 2)),
+                    region_bonds=region_bonds)
 
     @staticmethod
     def apply(qtn, tn, sp, p):
@@ -704,12 +755,14 @@ class _EqualizeNorms(_Base):
 
     @staticmethod
     def apply(qtn, tn, sp, p):
-        return _inplace_call(tn, "equalize_norms", p["inplace"], _alias=True, value=p["value"])
+        # a tensor of zero norm has no log10: the documented switch for that is check_zero
+        kw = {"check_zero": True} if min(_norms(sp)) == 0.0 else {}
+        return _inplace_call(tn, "equalize_norms", p["inplace"], _alias=True, value=p["value"], **kw)
 
     @staticmethod
     def post(before, after, p):
         n = _norms(after)
-        if not n:
+        if not n or min(_norms(before)) == 0.0:
             return None
         target = n[0] if p["value"] is None else (1.0 if p["value"] is True else float(p["value"]))
         bad = [(k, v) for k, v in enumerate(n) if abs(v - target) > 2e-3 * max(target, 1e-300)]
@@ -734,7 +787,8 @@ class _StripExponent(_Base):
     @staticmethod
     def apply(qtn, tn, sp, p):
         tid, t = next((tid, t) for tid, t in tn.tensor_map.items() if f"U{p['k']}" in t.tags)
-        tn.strip_exponent(tid if p["by"] == "tid" else t, p["value"])
+        kw = {"check_zero": True} if _norms(sp)[p["k"]] == 0.0 else {}
+        tn.strip_exponent(tid if p["by"] == "tid" else t, p["value"], **kw)
         if p["then"] == "distribute_exponent()":
             tn.distribute_exponent()
         elif p["then"] == "distribute_exponent(0.5)":
@@ -743,6 +797,8 @@ class _StripExponent(_Base):
 
     @staticmethod
     def post(before, after, p):
+        if _norms(before)[p["k"]] == 0.0:
+            return None
         if p["then"] == "nothing":
             target = 1.0 if p["value"] in (None, True) else float(p["value"])
             n = _norms(after)[p["k"]]
@@ -781,7 +837,7 @@ class _Squeeze(_Base):
 
     @staticmethod
     def draw(rng, sp):
-        ones = sorted(x for x, d in sp.sizes.items() if d == 1)
+        ones = sorted(x for x, d in sp.sizes.items() if d == 1 and x not in sp.out)
         mode = _choice(rng, ["default", "default", "exclude-outer", "include-some"])
         inc = [str(x) for x in rng.permutation(ones)[: max(1, len(ones) // 2)]] if ones else []
         return dict(fuse=bool(rng.integers(0, 2)), mode=mode, include=inc if mode == "include-some" else None,
@@ -825,7 +881,7 @@ class _CompressBetween(_Base):
                     canonize_distance=_choice(rng, [0, 0, 1, 2]), mode=mode,
                     reduced=_choice(rng, [True, True, False, "left", "right"]) if mode == "basic" else None,
                     max_bond=_choice(rng, [None, None, bond, bond + 3, 64]), eq=_choice(rng, [False, False, True, 1.0]),
-                    method=_choice(rng, [None, "svd", "eig"]))
+                    method=_choice(rng, [None, "svd", "svd:eig"]))
 
     @staticmethod
     def apply(qtn, tn, sp, p):
@@ -906,6 +962,7 @@ class _CompressAll1D(_Base):
 @rewrite("compress_all_simple", "G")
 class _CompressAllSimple(_Base):
     loose = True
+    zero_ok = False
 
     @staticmethod
     def ok(sp):
@@ -919,6 +976,175 @@ class _CompressAllSimple(_Base):
     def apply(qtn, tn, sp, p):
         return _inplace_call(tn, "compress_all_simple", p["inplace"], _alias=True, max_bond=p["max_bond"], cutoff=0.0,
                              max_iterations=p["max_iterations"])
+
+
+# ---- external bond gauges: the network together with the vectors in `gauges` denotes the tensor ------------------
+
+
+class _Ext(_Base):
+    loose = True
+    zero_ok = False
+
+    @staticmethod
+    def ok(sp):
+        return sp.plain and sp.gauges is not None
+
+
+@rewrite("gauge_all_simple(gauges)", "X")
+class _XGaugeAllSimple(_Ext):
+    @staticmethod
+    def ok(sp):
+        return sp.plain and bool(sp.edges())
+
+    @staticmethod
+    def draw(rng, sp):
+        return dict(max_iterations=_choice(rng, [1, 2, 5]), tol=_choice(rng, [0.0, 1e-6]), power=_choice(rng, [1.0, 1.0, 0.5]),
+                    fuse=bool(rng.integers(0, 2)), eq=bool(rng.integers(0, 2)), inplace=bool(rng.integers(0, 2)),
+                    started=sp.gauges is not None)
+
+    @staticmethod
+    def apply(qtn, tn, sp, p):
+        return _inplace_call(tn, "gauge_all_simple", p["inplace"], _alias=True, gauges=tn._vf_gauges,
+                             max_iterations=p["max_iterations"], tol=p["tol"], power=p["power"], fuse_multibonds=p["fuse"],
+                             equalize_norms=p["eq"])
+
+    @staticmethod
+    def post(before, after, p):
+        inner = {x for x, c in after.counts.items() if c == 2}
+        missing = inner - set(after.gauges or {})
+        if missing and p["max_iterations"] >= 1 and before.connected():
+            return f"bonds {sorted(missing)} have no gauge after gauge_all_simple(gauges=...)"
+        return None
+
+
+@rewrite("canonize_between(gauges)", "X")
+class _XCanonizeBetween(_Ext):
+    @staticmethod
+    def ok(sp):
+        return sp.plain and sp.gauges is not None and bool(sp.edges())
+
+    @staticmethod
+    def draw(rng, sp):
+        i, j, _ = _pick_edge(rng, sp)
+        return dict(i=i, j=j, absorb=_choice(rng, ["right", "left"]))
+
+    @staticmethod
+    def apply(qtn, tn, sp, p):
+        tn.canonize_between(f"U{p['i']}", f"U{p['j']}", absorb=p["absorb"], gauges=tn._vf_gauges)
+        return tn
+
+
+@rewrite("compress_between(gauges)", "X")
+class _XCompressBetween(_Ext):
+    @staticmethod
+    def ok(sp):
+        return sp.plain and sp.gauges is not None and bool(sp.edges())
+
+    @staticmethod
+    def draw(rng, sp):
+        i, j, _ = _pick_edge(rng, sp)
+        return dict(i=i, j=j, canonize_distance=_choice(rng, [0, 0, 1]), max_bond=_choice(rng, [None, 64]))
+
+    @staticmethod
+    def apply(qtn, tn, sp, p):
+        tn.compress_between(f"U{p['i']}", f"U{p['j']}", max_bond=p["max_bond"], cutoff=0.0,
+                            canonize_distance=p["canonize_distance"], gauges=tn._vf_gauges)
+        return tn
+
+
+@rewrite("gauge_all_canonize(gauges)", "X")
+class _XGaugeAllCanonize(_Ext):
+    @staticmethod
+    def draw(rng, sp):
+        return dict(max_iterations=_choice(rng, [1, 2]), absorb=_choice(rng, ["both", "right"]), inplace=bool(rng.integers(0, 2)))
+
+    @staticmethod
+    def apply(qtn, tn, sp, p):
+        return _inplace_call(tn, "gauge_all_canonize", p["inplace"], _alias=True, gauges=tn._vf_gauges,
+                             max_iterations=p["max_iterations"], absorb=p["absorb"])
+
+
+@rewrite("fuse_multibonds(gauges)", "X")
+class _XFuse(_Ext):
+    loose = False
+
+    @staticmethod
+    def draw(rng, sp):
+        return dict(inplace=bool(rng.integers(0, 2)), multibonds=any(len(v) > 1 for v in sp.edges().values()))
+
+    @staticmethod
+    def apply(qtn, tn, sp, p):
+        return _inplace_call(tn, "fuse_multibonds", p["inplace"], _alias=True, gauges=tn._vf_gauges)
+
+    @staticmethod
+    def post(before, after, p):
+        multi = {ij: v for ij, v in after.edges().items() if len(v) > 1}
+        return f"multibonds left: {multi}" if multi else None
+
+
+@rewrite("compress_all_simple(gauges)", "X")
+class _XCompressAllSimple(_Ext):
+    @staticmethod
+    def ok(sp):
+        return sp.plain and sp.gauges is not None and bool(sp.edges())
+
+    @staticmethod
+    def draw(rng, sp):
+        return dict(max_iterations=_choice(rng, [1, 3]), inplace=bool(rng.integers(0, 2)), max_bond=_choice(rng, [None, 64]))
+
+    @staticmethod
+    def apply(qtn, tn, sp, p):
+        return _inplace_call(tn, "compress_all_simple", p["inplace"], _alias=True, gauges=tn._vf_gauges,
+                             max_bond=p["max_bond"], cutoff=0.0, max_iterations=p["max_iterations"])
+
+
+@rewrite("gauge_simple_insert(remove=True)", "X")
+class _XInsertRemove(_Ext):
+    """absorb every gauge into the tensors: afterwards the network alone denotes the tensor"""
+
+    @staticmethod
+    def draw(rng, sp):
+        return dict(via=_choice(rng, ["gauge_simple_insert", "gauge_insert"]))
+
+    @staticmethod
+    def apply(qtn, tn, sp, p):
+        g = tn._vf_gauges
+        if p["via"] == "gauge_insert":
+            tn.gauge_insert(g)
+            g.clear()
+        else:
+            tn.gauge_simple_insert(g, remove=True)
+        return tn
+
+    @staticmethod
+    def post(before, after, p):
+        left = [k for k in (after.gauges or {}) if k in after.counts]
+        return f"gauges {left} are still in the store after remove=True" if left else None
+
+
+@rewrite("gauge_simple_insert then gauge_simple_remove", "X")
+class _XRoundTrip(_Ext):
+    @staticmethod
+    def draw(rng, sp):
+        return dict(how=_choice(rng, ["insert/remove", "temp", "temp-keep-inner"]), smudge=_choice(rng, [0.0, 1e-12]))
+
+    @staticmethod
+    def apply(qtn, tn, sp, p):
+        g = tn._vf_gauges
+        ref, scale = sp.value()[0], sp.scale()
+        if p["how"] == "insert/remove":
+            outer, inner = tn.gauge_simple_insert(g, smudge=p["smudge"])
+            mid = Snap.of(tn, sp.out)          # gauges inserted: the network alone denotes the tensor
+            tn.gauge_simple_remove(outer=outer, inner=inner)
+        else:
+            with tn.gauge_simple_temp(g, smudge=p["smudge"], ungauge_inner=(p["how"] == "temp")):
+                mid = Snap.of(tn, sp.out)
+            if p["how"] == "temp-keep-inner":
+                # the inner gauges stay absorbed: forget them in the store
+                for k in [k for k in g if sp.counts.get(k, 0) == 2]:
+                    del g[k]
+        err = _cmp(mid.value()[0], ref, scale, 1e-3 if not sp.double else 1e-6, "network with the gauges inserted")
+        return err if err else tn
 
 
 # ---- simplification passes (hyper labels and explicit outputs allowed) --------------------------------------------
@@ -1001,7 +1227,7 @@ class _SplitSimplify(_Simp):
 
     @staticmethod
     def draw(rng, sp):
-        return dict(inplace=bool(rng.integers(0, 2)), eq=_choice(rng, [False, False, True, 1.0]), method=_choice(rng, [None, "svd", "eig"]))
+        return dict(inplace=bool(rng.integers(0, 2)), eq=_choice(rng, [False, False, True, 1.0]), method=_choice(rng, [None, "svd", "svd:eig"]))
 
     @classmethod
     def apply(cls, qtn, tn, sp, p):
@@ -1056,7 +1282,7 @@ class _FullSimplify(_Simp):
         else:
             seq = "".join(letters[int(v)] for v in rng.integers(0, len(letters), size=int(rng.integers(1, 6))))
         return dict(seq=seq, inplace=bool(rng.integers(0, 2)), eq=_choice(rng, [False, False, True, 1.0]),
-                    give_out=bool(rng.integers(0, 2)), split_method=_choice(rng, ["svd", "svd", "eig"]))
+                    give_out=bool(rng.integers(0, 2)), split_method=_choice(rng, ["svd", "svd", "svd:eig"]))
 
     @classmethod
     def apply(cls, qtn, tn, sp, p):
@@ -1095,12 +1321,13 @@ class _CompressSimplify(_Simp):
     @staticmethod
     def draw(rng, sp):
         return dict(inplace=bool(rng.integers(0, 2)), give_out=bool(rng.integers(0, 2)), final_resolve=bool(rng.integers(0, 2)),
-                    mode=_choice(rng, ["tree", "dense", "mps"]), eq=_choice(rng, [True, False]))
+                    mode=_choice(rng, ["tree", "dense", "mps"]), eq=_choice(rng, [True, False]),
+                    sorter=_choice(rng, ["clustering", "clustering", "centrality"]))
 
     @classmethod
     def apply(cls, qtn, tn, sp, p):
         return _inplace_call(tn, "compress_simplify", p["inplace"], _alias=True, atol=1e-12, final_resolve=p["final_resolve"],
-                             hyperind_resolve_mode=p["mode"], hyperind_resolve_sort="centrality", equalize_norms=p["eq"],
+                             hyperind_resolve_mode=p["mode"], hyperind_resolve_sort=p["sorter"], equalize_norms=p["eq"],
                              **cls.okw(sp, p))
 
 
@@ -1113,6 +1340,11 @@ def run_step(qtn, before, name, p, dt):
     """apply rewrite `name` with parameters p to a fresh copy of `before`; -> (after Snap or None, violation or None)"""
     rw = REWRITES[name]
     tn = before.mk(qtn)
+    # external bond gauges (simple update style) travel next to the network
+    g = None if before.gauges is None else {k: np.array(v) for k, v in before.gauges.items()}
+    if rw.group == "X":
+        g = {} if g is None else g
+        tn._vf_gauges = g
     res = rw.apply(qtn, tn, before, p)
     if isinstance(res, str):
         return None, res
@@ -1125,11 +1357,16 @@ def run_step(qtn, before, name, p, dt):
         if res is tn:
             return None, f"{name}(inplace=False) returned the receiver itself"
         # the receiver still denotes what it denoted
-        rec = Snap.of(tn, before.out)
+        rec = Snap.of(tn, before.out, before.gauges)
         err = check_step(before, rec, dt, same_tensors=False, same_outer=False)
         if err:
             return None, f"receiver changed by a non-in-place call: {err}"
-    after = Snap.of(res, before.out)
+    if g is not None:
+        bad = [k for k, v in g.items() if k in res.ind_map and np.shape(v) != (res.ind_size(k),)]
+        if bad:
+            return None, f"gauge vectors of {bad} do not match the size of their bond"
+        g = {k: v for k, v in g.items()} or None
+    after = Snap.of(res, before.out, g)
     if rw.same_tensors:
         # the gauging rewrites keep the tensors: line them up by their unique tag
         if after.nt != before.nt:
@@ -1153,13 +1390,15 @@ def _jsonable(p):
     return q
 
 
-def compose(cx, qtn, rng, base, start, names, nsteps, dt, label):
+def compose(cx, qtn, rng, base, start, names, nsteps, dt, label, first=None):
     """apply up to nsteps random eligible rewrites in sequence; every step is one contract evaluation, judged against
     the network it received"""
     cur = start
     hist = []
     for step in range(nsteps):
-        elig = [n for n in names if REWRITES[n].ok(cur)]
+        elig = [n for n in names if REWRITES[n].ok(cur) and (REWRITES[n].zero_ok or not cur.zero)]
+        if step == 0 and first is not None:
+            elig = [n for n in elig if n == first]
         if not elig:
             break
         name = elig[int(rng.integers(0, len(elig)))]
@@ -1176,7 +1415,8 @@ def compose(cx, qtn, rng, base, start, names, nsteps, dt, label):
             return err
 
         params = dict(base, step=step, op=name, history=list(hist), plain=cur.plain, tree=cur.is_tree(), nt_now=cur.nt,
-                      zero_value=cur.zero,
+                      zero_value=cur.zero, n_bonds=len(cur.edges()), single=not cur.double,
+                      shrinkable=cur.shrinkable() if cur.plain else None, gauges=cur.gauges is not None,
                       **{"p_" + k: v for k, v in _jsonable(p).items()})
         verdict = cx.check(f"{name}: same dense tensor over the same outer labels before and after; promised form holds "
                            f"({label})", params, thunk)
@@ -1195,6 +1435,7 @@ def compose(cx, qtn, rng, base, start, names, nsteps, dt, label):
 
 
 G_NAMES = [n for n, c in REWRITES.items() if c.group == "G"]
+X_NAMES = [n for n, c in REWRITES.items() if c.group == "X"]
 S_NAMES = [n for n, c in REWRITES.items() if c.group == "S"]
 
 
@@ -1202,7 +1443,7 @@ def _exponents(dt):
     return [0.0, 1.5, -1.5, 3.0] if dt in SINGLE else [0.0, 1.5, -1.5, 30.0]
 
 
-@driver("C04", "gauging-compositions", chunks=6, timeout=240,
+@driver("C04", "gauging-compositions", chunks=4, timeout=300,
         bound="plain networks on random trees / trees with extra edges and multibonds, occasionally disconnected, 1-6 "
               "tensors (thorough 1-8) of rank <= 5, dims {1,2,3}, 0-2 dangling labels per tensor, 4 dtypes, stored exponent "
               "{0,+-1.5,30} (single precision 3); sequences of <= 4 (thorough <= 8) rewrites drawn from canonize_between / "
@@ -1218,7 +1459,7 @@ def gauging(cx):
     _no_nested_pools()
     rng = cx.rng
     nts = [1, 2, 3, 4, 5, 6] if cx.quick else [1, 2, 3, 4, 5, 6, 7, 8]
-    reps = 3 if cx.quick else 24
+    reps = 8 if cx.quick else 60
     nsteps = 4 if cx.quick else 8
     grid = [(nt, loopy, dt, ei, r) for nt in nts for loopy in (False, True) for dt in DTYPES for ei in range(4)
             for r in range(reps)]
@@ -1237,7 +1478,7 @@ def gauging(cx):
                 "gauging")
 
 
-@driver("C04", "simplification-compositions", chunks=6, timeout=240,
+@driver("C04", "simplification-compositions", chunks=4, timeout=300,
         bound="networks of 1-6 tensors (thorough 1-7) of rank 0-4 with labels of multiplicity 1-4, dims mostly equal (2 or "
               "3) with some 1s, tensors with exact zero structure (diagonal, antidiagonal, COPY, single column, rank one, "
               "identity) mixed with dense ones; outputs = labels occurring once, or an arbitrary subset of <= 3 labels "
@@ -1252,7 +1493,7 @@ def simplification(cx):
     _no_nested_pools()
     rng = cx.rng
     nts = [1, 2, 3, 4, 5, 6] if cx.quick else [1, 2, 3, 4, 5, 6, 7]
-    reps = 3 if cx.quick else 24
+    reps = 10 if cx.quick else 80
     nsteps = 4 if cx.quick else 8
     grid = [(nt, hy, dt, ei, r) for nt in nts for hy in (False, True) for dt in DTYPES for ei in range(4)
             for r in range(reps)]
@@ -1269,3 +1510,32 @@ def simplification(cx):
                     out_is_inferred=set(start.out) == set(start.inferred))
         names = S_NAMES + (G_NAMES if r % 2 == 0 else [])
         compose(cx, qtn, crng, base, start, names, nsteps, dt, "simplification")
+
+
+@driver("C04", "external-gauges", chunks=2, timeout=300,
+        bound="same plain tree / loopy networks, 2-6 tensors; gauge_all_simple_(gauges=g) first, then <= 3 (thorough <= 6) "
+              "steps of gauge_all_simple / canonize_between / compress_between(cutoff=0) / gauge_all_canonize / "
+              "fuse_multibonds / compress_all_simple(cutoff=0) with gauges=g, gauge_simple_insert(remove=True) / "
+              "gauge_insert, insert+remove round trips and the gauge_simple_temp context; the denoted tensor is the "
+              "einsum of the tensors together with every stored gauge vector on its label")
+def external_gauges(cx):
+    import quimb.tensor as qtn
+
+    _no_nested_pools()
+    rng = cx.rng
+    nts = [2, 3, 4, 5] if cx.quick else [2, 3, 4, 5, 6]
+    reps = 5 if cx.quick else 40
+    nsteps = 4 if cx.quick else 7
+    grid = [(nt, loopy, dt, ei, r) for nt in nts for loopy in (False, True) for dt in DTYPES for ei in range(4)
+            for r in range(reps)]
+    for i, (nt, loopy, dt, ei, r) in enumerate(grid):
+        if not cx.mine():
+            continue
+        if cx.out_of_time():
+            cx.inconclusive.append("external-gauges: time budget exhausted before the grid was finished")
+            return
+        e = _exponents(dt)[ei]
+        crng = np.random.default_rng(int(rng.integers(0, 1 << 62)))
+        start = gen_graph(crng, nt, loopy, dt, e)
+        base = dict(i=i, nt=nt, loopy=loopy, dt=dt, e=e)
+        compose(cx, qtn, crng, base, start, X_NAMES + G_NAMES, nsteps, dt, "external gauges", first="gauge_all_simple(gauges)")
